@@ -5,6 +5,7 @@ mod c06;
 mod c07;
 mod c08;
 mod c12;
+mod c16;
 mod c19;
 mod c20;
 mod ledger;
@@ -23,6 +24,7 @@ fn main() {
         "c07" => c07::run(&args[2..]),
         "c08" => c08::run(&args[2..]),
         "c12" => c12::run(&args[2..]),
+        "c16" => c16::run(&args[2..]),
         "c19" => c19::run(&args[2..]),
         "c20" => c20::run(&args[2..]),
         "c01" | "c02" | "c03" | "ledger" => ledger::run(&args[2..]),
